@@ -717,6 +717,10 @@ def decision_paths(fn, limit=400, with_calls=False, with_env=False):
                     e = ("downcast", e, el["variant"] or el["downcast"])
             elif isinstance(el, dict) and "index" in el:
                 e = ("index", e, ev_place({"l": el["index"], "p": []}, env))
+            elif isinstance(el, dict) and "cindex" in el:
+                e = ("cindex", e, el["cindex"], bool(el.get("from_end")), el.get("min_length"))
+            elif isinstance(el, dict) and "subslice" in el:
+                e = ("subslice", e, el["subslice"][0], el["subslice"][1], bool(el.get("from_end")))
             else:
                 e = ("proj", e, str(el))
         return e
